@@ -81,7 +81,12 @@ func ContractRenewalCollateral(fc types.FileContract, expectedNewStorage uint64,
 	if endHeight < fc.EndHeight() {
 		panic("endHeight should be at least the current end height of the contract")
 	}
-	extension := endHeight - fc.WindowEnd
+	// NOTE: the extension must match the one CalculateHostPayouts charges the
+	// base collateral for; endHeight may lie inside the current proof window.
+	var extension uint64
+	if contractEnd := endHeight + host.WindowSize; contractEnd > fc.WindowEnd {
+		extension = contractEnd - fc.WindowEnd
+	}
 	if endHeight < blockHeight {
 		panic("current blockHeight should be lower than the endHeight")
 	}
